@@ -31,9 +31,9 @@ ASSUMPTIONS = ['documented exceptions: estimate state (transform, bias) of Estim
                'EstimationModel / Parameters / Turntable methods may change their own object but never their arguments',
                'Turntable.generate_imu is excluded: it raises at baseline under scipy 1.18 (test_Turntable fails in BASELINE.json)',
                'values across argument forms compared to <= 4 ulp of the result scale (spline-based synthesis: 2e4 ulp, i.e. 4e-12 relative, because memory layout changes summation order); repeats of the same form bitwise']
-REQUIRED_OBS = ['stack_of_one_runs', 'permuted_column_runs', 'integer_form_comparisons', 'index_name_runs', 'history_replays', 'module_state_checks', 'callables_enumerated', 'callables_with_spec', 'purity_checks', 'readonly_runs', 'determinism_checks',
+REQUIRED_OBS = ['poison_comparisons', 'concurrent_calls_compared', 'stack_of_one_runs', 'permuted_column_runs', 'integer_form_comparisons', 'index_name_runs', 'history_replays', 'module_state_checks', 'callables_enumerated', 'callables_with_spec', 'purity_checks', 'readonly_runs', 'determinism_checks',
                 'form_comparisons', 'schema_checks', 'ambient_calls_checked']
-REQUIRED_CLASSES = {'all': ['directed', 'ambient']}
+REQUIRED_CLASSES = {'all': ['directed', 'ambient', 'poison', 'threads']}
 MODULES = ['earth', 'error_model', 'filters', 'inertial_sensor', 'kalman', 'measurements', 'sim', 'strapdown', 'transform', 'util']
 EXCLUDED = {'sim.Turntable.generate_imu': 'raises at baseline under scipy 1.18'}
 EXTRA_PUBLIC = {'transform': ['ecef_to_lla'], 'util': ['Bunch']}
@@ -292,7 +292,11 @@ def specs(rng):
     P = np.diag(rng.uniform(1, 2, 4))
     Hm = rng.standard_normal((2, 4))
     add('kalman.correct', Call('4x2', kalman.correct, [np.zeros(4), P, np.array([1., 2]), Hm, np.eye(2)], nd=[0, 1, 2, 3, 4], ulp=64))
-    add('kalman.compute_process_matrices', Call('4', kalman.compute_process_matrices, [rng.standard_normal((4, 4)), np.eye(4), 0.5], nd=[0, 1], ulp=64))
+    add('kalman.compute_process_matrices', Call('4', kalman.compute_process_matrices, [rng.standard_normal((4, 4)), np.eye(4), 0.5], nd=[0, 1], ulp=64),
+        Call('zeroF', kalman.compute_process_matrices, [np.zeros((4, 4)), np.eye(4), 0.5], nd=[0, 1], ulp=64),
+        Call('zeroQ', kalman.compute_process_matrices, [rng.standard_normal((4, 4)), np.zeros((4, 4)), 0.5], nd=[0, 1], ulp=64),
+        Call('zero-dt', kalman.compute_process_matrices, [rng.standard_normal((4, 4)), np.eye(4), 0.0], nd=[0, 1], ulp=64),
+        Call('tinyQ', kalman.compute_process_matrices, [rng.standard_normal((4, 4)), 1e-12 * np.eye(4), 0.5], nd=[0, 1], ulp=64))
     # ---- inertial sensor
     mk_model = lambda: inertial_sensor.EstimationModel(bias_sd=0.1, noise=[0.01, 0, 0.01], bias_walk=0.001, scale_misal_sd=0.01 * np.ones((3, 3)))   # noqa: E731
     xm = rng.standard_normal(12) * 1e-3
@@ -559,8 +563,9 @@ def run_directed(name, calls, seeds, obs):
             bump('module_state_checks')
             changed_state = module_state_diff(ms0, module_state())
             if changed_state:
-                out.append(vio('hidden_module_state', f'{where}: the call changed module-level state {changed_state[:4]}: results can depend on the '
-                               f'order of earlier calls'))
+                # NOT an alarm by itself (a correct memo is module-level state too): counted and named in the evidence; whether any result depends on
+                # it is decided behaviourally - history replay, re-runs, the poison pass and the thread stress below
+                bump('module_state_changes_observed')
             after = purity.snapshot(base_args)
             if before != after:
                 ch = purity.diff(before, after)
@@ -769,6 +774,142 @@ def extra_forms(name, call, sd, where, bump):
     return out
 
 
+# ------------------------------------------------------------------ behavioural monitors for shared state
+def _plain_function_calls(S):
+    """(name, call) for every specification of a module-level FUNCTION (not a method, not seeded, no bound object): such a function
+    owns nothing the caller could legitimately change through what it was handed back."""
+    out = []
+    for name, calls in S.items():
+        if name.count('.') != 1 or name.startswith('filters.') or 'smooth' in name:
+            continue
+        for c in calls:
+            if c.self_obj is None and c.compare and c.seed_arg is None and inspect.isfunction(c.fn) and getattr(c.fn, '__module__', '').startswith('pyins'):
+                out.append((f'{name}[{c.label}]', c))
+                if c.single is not None:           # the single-point path of the same function (its own branch in most of them)
+                    one = Call(c.label + '/single', c.fn, [c.single[0](np.array(a, copy=True)) if i in c.vary and isinstance(a, np.ndarray) else clone(a)
+                                                          for i, a in enumerate(c.args)], kwargs=c.kwargs)
+                    out.append((f'{name}[{one.label}]', one))
+                elif (name.startswith('earth.') or name == 'transform.mat_en_from_ll') and c.vary and all(isinstance(c.args[i], np.ndarray) and c.args[i].ndim == 1 for i in c.vary):
+                    one = Call(c.label + '/scalar', c.fn, [float(a[0]) if i in c.vary else clone(a) for i, a in enumerate(c.args)], kwargs=c.kwargs)
+                    out.append((f'{name}[{one.label}]', one))
+    return out
+
+
+def run_poison(case):
+    """Cross-function state through returned arrays: reference results of every module-level function first; then every function is
+    called and the caller overwrites whatever arrays it got back; then every function is called once more with equal arguments and
+    must reproduce its reference bit for bit.  (A memo whose entries are handed out uncopied - to the same or to ANOTHER function -
+    answers the last round with the caller's scribbles.  A memo that hands out copies passes.)"""
+    rng = np.random.Generator(np.random.PCG64(case['seed']))
+    calls = _plain_function_calls(specs(rng))
+    out, obs = [], {}
+    ref = {}
+    try:
+        for nm, c in calls:
+            ref[nm] = purity.flatten(clone_result(c.fn(*[clone(a) for a in c.args], **{k: clone(v) for k, v in c.kwargs.items()})))
+        order = list(rng.permutation(len(calls)))
+        for i in order:
+            nm, c = calls[i]
+            r = c.fn(*[clone(a) for a in c.args], **{k: clone(v) for k, v in c.kwargs.items()})
+            obs['returned_arrays_overwritten'] = obs.get('returned_arrays_overwritten', 0) + scribble(r)
+        for i in list(rng.permutation(len(calls))):
+            nm, c = calls[i]
+            got = purity.flatten(c.fn(*[clone(a) for a in c.args], **{k: clone(v) for k, v in c.kwargs.items()}))
+            obs['poison_comparisons'] = obs.get('poison_comparisons', 0) + 1
+            bad = purity.compare_flat(ref[nm], got, ulp=0)
+            if bad and len(out) < 6:
+                out.append(vio('result_depends_on_callers_writes', f'{nm}: after callers overwrote the arrays that the module-level functions had returned to them, the same call '
+                               f'returns different values in {bad[:3]}: some function hands out an array that it (or another function) keeps using'))
+    except Exception as e:
+        import traceback
+        out.append(vio('exception', f'poison pass: {type(e).__name__}: {e}', tb=traceback.format_exc()[-800:]))
+    return dict(violations=out, obs=obs, nontrivial=True, evals=max(1, obs.get('poison_comparisons', 0)), nontrivial_count=max(1, obs.get('poison_comparisons', 0)),
+                sample=dict(cls='poison', functions=len(calls)))
+
+
+def clone_result(o):
+    import copy
+    return copy.deepcopy(o)
+
+
+def scribble(o):
+    n = 0
+    if isinstance(o, np.ndarray):
+        if o.dtype.kind == 'f' and o.flags.writeable and o.size:
+            o[...] = -777.25
+            n += 1
+    elif isinstance(o, (pd.DataFrame, pd.Series)):
+        try:
+            v = o.values
+            if isinstance(v, np.ndarray) and v.dtype.kind == 'f' and v.flags.writeable and v.size:
+                v[...] = -777.25
+                n += 1
+        except Exception:
+            pass
+    elif isinstance(o, dict):
+        for v in o.values():
+            n += scribble(v)
+    elif isinstance(o, (list, tuple)):
+        for v in o:
+            n += scribble(v)
+    return n
+
+
+def run_threads(case):
+    """Re-entrancy: the module-level functions are called from several threads at once (switch interval 1 us), each thread with its own
+    argument copies; every result must equal the sequential reference bit for bit.  A scratch buffer or any other module-level
+    working state shared between calls only shows under such an interleaving."""
+    import sys
+    import threading
+    rng = np.random.Generator(np.random.PCG64(case['seed']))
+    S = specs(rng)
+    calls = [(nm, c) for nm, c in _plain_function_calls(S) if not nm.startswith('sim.')]
+    # two argument sets per function (the second with scaled values), so that concurrent calls of one function differ
+    work = []
+    for nm, c in calls:
+        a1 = [clone(a) for a in c.args]
+        a2 = [b if (b := perturbed(a)) is not None else clone(a) for a in c.args]
+        for tag, a in (('a', a1), ('b', a2)):
+            try:
+                work.append((nm + tag, c, a, purity.flatten(clone_result(c.fn(*[clone(x) for x in a], **c.kwargs)))))
+            except Exception:
+                pass
+    out, obs = [], {}
+    bad_log = []
+    lock = threading.Lock()
+    n_threads, rounds = 4, (30 if len(work) else 0)
+    old = sys.getswitchinterval()
+    sys.setswitchinterval(1e-6)
+
+    def worker(k):
+        lrng = np.random.Generator(np.random.PCG64(case['seed'] * 10 + k))
+        for _ in range(rounds):
+            for i in lrng.permutation(len(work)):
+                nm, c, a, ref = work[i]
+                try:
+                    got = purity.flatten(c.fn(*[clone(x) for x in a], **c.kwargs))
+                    bad = purity.compare_flat(ref, got, ulp=0)
+                except Exception as e:
+                    bad = [f'{type(e).__name__}: {e}']
+                with lock:
+                    obs['concurrent_calls_compared'] = obs.get('concurrent_calls_compared', 0) + 1
+                    if bad and len(bad_log) < 6:
+                        bad_log.append((nm, bad[:2]))
+    try:
+        ts = [threading.Thread(target=worker, args=(k,)) for k in range(n_threads)]
+        for t in ts:
+            t.start()
+        for t in ts:
+            t.join()
+    finally:
+        sys.setswitchinterval(old)
+    for nm, bad in bad_log:
+        out.append(vio('not_reentrant', f'{nm[:-1]}: called from {n_threads} threads at once (own argument copies each) a result differs from the sequential one in {bad}: '
+                       f'the function keeps working state that is shared between calls'))
+    return dict(violations=out, obs=obs, nontrivial=True, evals=max(1, obs.get('concurrent_calls_compared', 0)), nontrivial_count=max(1, obs.get('concurrent_calls_compared', 0)),
+                sample=dict(cls='threads', functions=len(calls), threads=n_threads, rounds=rounds))
+
+
 # ------------------------------------------------------------------ ambient sanitizer
 AMBIENT = {'violations': [], 'calls': 0, 'on': False, 'depth': 0}
 
@@ -835,6 +976,9 @@ def cases(seed, tier):
     na = 16 if tier == 'quick' else 160
     for i in range(na):
         out.append(dict(cls='ambient', kind=['feedback', 'feedforward', 'history', 'sim'][i % 4], seed=int(seed) * 1000003 + i, cost=25))
+    for i in range(2 if tier == 'quick' else 12):
+        out.append(dict(cls='poison', seed=int(seed) * 100 + 50 + i, cost=120))
+        out.append(dict(cls='threads', seed=int(seed) * 100 + 70 + i, cost=120))
     if tier == 'thorough':
         out.append(dict(cls='ambient', kind='testsuite', seed=0, cost=4000))
     return out
@@ -857,6 +1001,10 @@ def run_case(case):
         nforms = obs.get('form_comparisons', 0) + obs.get('determinism_checks', 0) + obs.get('purity_checks', 0)
         return dict(violations=out, obs=obs, nontrivial=True, evals=max(1, nforms), nontrivial_count=max(1, nforms),
                     sample=dict(name=nm, specs=[c.label for c in S[nm]], checks=dict(obs)))
+    if case['cls'] == 'poison':
+        return run_poison(case)
+    if case['cls'] == 'threads':
+        return run_threads(case)
     # ambient
     if not AMBIENT.get('installed'):
         install_ambient()
@@ -913,7 +1061,7 @@ def run_case(case):
     ch = module_state_diff(ms0, module_state())
     obs['module_state_checks'] = 1
     if ch:
-        out.append(vio('hidden_module_state', f'ambient {case["kind"]}: module-level state changed during the run: {ch[:4]}'))
+        obs['module_state_changes_observed'] = 1          # evidence only, see run_directed
     obs['ambient_calls_checked'] = AMBIENT['calls']
     return dict(violations=out, obs=obs, nontrivial=True, evals=max(1, AMBIENT['calls']), nontrivial_count=max(1, AMBIENT['calls']),
                 sample=dict(kind=case['kind'], seed=case['seed'], public_calls_observed=AMBIENT['calls']))
